@@ -98,3 +98,15 @@ End ParMap.
 Arguments tq {R Ex}. Arguments idle {R Ex}. Arguments running {R Ex}. Arguments rq {R Ex}.
 Arguments res {R Ex}. Arguments received {R Ex}. Arguments pc {R Ex}. Arguments mk {R Ex}.
 Arguments Ok {R Ex}. Arguments Err {R Ex}.
+
+(* ---- transport of a worker's exception back to the caller.  The result queue serialises with the standard pickle module; an object it cannot
+   serialise is dropped by the queue's feeder thread (nothing arrives: for the caller this is the `catch = false` behaviour of the model above).
+   _WorkerException replaces an exception that fails its round-trip test `check` by a description (a RuntimeError, always serialisable). *)
+Section Transport.
+  Variable Ex : Type.
+  Variable pickles : Ex -> bool.       (* the queue can carry this exception *)
+  Variable check : Ex -> bool.         (* the test _WorkerException.__init__ applies *)
+  Variable describe : Ex -> Ex.        (* RuntimeError("Exception in ParallelMap worker: ...") *)
+  Definition wrap (e : Ex) : Ex := if check e then e else describe e.
+  Definition delivered (e : Ex) : bool := pickles (wrap e).
+End Transport.
